@@ -15,7 +15,7 @@ from vf.spec.table import TYPES
 from vf.props.e2e import outcome_label
 
 NUMBER_POOL = [0, -0.0, 0.0, False, 1, 1.0, True, 2, 2.0]
-TEXT_POOL = ['A', 'a', 'B', '0', '1', 'AB']
+TEXT_POOL = ['A', 'a', 'B', '0', '1', 'AB', 'L' * 128, 'M' * 200]      # (long ones: 1- vs 2-byte length prefixes)
 NAME_POOL = ['N1', 'N2', 'SAME']
 META = ('zone', 'parameter', 'equipment', 'comment', 'axis', 'computation', 'well_reference_point', 'message',
         'calibration_coefficient', 'tool')
